@@ -177,6 +177,7 @@ def oracle(cells, res) -> list:
         n = len(poly)
         if len(tris) != n - 2:
             out.append(('count', k, f'cell {k} with {n} sides has {len(tris)} triangles'))
+            continue        # the remaining clauses are about a list of n - 2 triangles
         total = sum((abs(f_area2(tr)) for tr in tris), Fraction(0))
         if total != abs(f_area2(poly)):
             out.append(('area-sum', k, f'cell {k}: triangle areas sum to {total / 2}, cell area is {abs(f_area2(poly)) / 2}'))
